@@ -72,7 +72,10 @@ ASSUMPTIONS = ["VLoop keeps asyncio FIFO semantics; only clock and I/O readiness
 EXPECTED_PROBES = ["streams_completed", "queued_streams", "fifo_pairs_checked", "mcs_lowered", "mcs_zero", "origin_rst",
                    "client_rst", "origin_goaway", "origin_tcp_close", "req_window_blocked", "resp_window_blocked",
                    "trailers_relayed", "early_response", "h1_origin_conns", "streamed_request", "streamed_response",
-                   "big_body", "late_settings", "hook_latency", "cuts_inside_frames", "limit_checked_at_limit"]
+                   "big_body", "late_settings", "hook_latency", "cuts_inside_frames", "limit_checked_at_limit",
+                   "quiet_reset_runs", "slot_freed_by_client_reset_while_queued", "late_arrival_pairs_checked",
+                   "origin_window_opened_by_settings", "client_window_opened_by_settings",
+                   "request_body_stalled_until_settings", "response_body_stalled_until_settings"]
 
 MARK = re.compile(rb"mk(\d\d)x")
 HTTP_HOOKS = ("requestheaders", "request", "responseheaders", "response", "error")
@@ -111,8 +114,74 @@ def _wchoice(r, items):
 # =====================================================================================================
 # generator
 # =====================================================================================================
+BIG_WINDOW = 1 << 20
+
+
+def gen_quiet_reset(r):
+    """MAX_CONCURRENT_STREAMS is reached with streams queued; the slot is then freed by a CLIENT-side event (the client
+    resets an active stream whose answer is still far away) while the origin stays silent; sometimes further requests
+    arrive after the reset.  The queued streams must be opened (none lost) and before any later arrival."""
+    mode = r.choice(["regular", "regular", "reverse"])
+    limit = r.choice([1, 1, 2, 3])
+    nq = r.choice([1, 1, 2, 3])
+    nlate = r.choice([0, 1, 1, 2])
+    streams, responses = [], {}
+    k = 0
+
+    def add(method, body, delay, status=200):
+        nonlocal k
+        m = mk(k)
+        chunks = [[f"<{m}.q0>", body]] if body is not None else []
+        hs = [[":method", method], [":scheme", "https"], [":path", f"/s/{m}/r?i={m}"], [":authority", "o.test"],
+              ["x-mark", m], [f"x-h-{m}", "1"]]
+        if chunks and r.random() < 0.6:
+            hs.append(["content-length", str(len(body_of(chunks)))])
+        streams.append({"k": k, "headers": hs, "chunks": chunks, "trailers": None})
+        rch = [[f"<{m}.r0>", r.choice([0, 40])]] if status == 200 and r.random() < 0.7 else []
+        responses[m] = {"status": status, "chunks": rch, "delay": delay, "gaps": [0] * len(rch),
+                        "headers": [[":status", str(status)], ["x-mark", m], [f"x-r-{m}", "1"]]}
+        k += 1
+        return k - 1
+
+    holders = [add("GET", None, r.choice([8.0, 15.0, 30.0])) for _ in range(limit)]
+    queued = [add(r.choice(["GET", "GET", "POST"]), None, r.choice([0, 0.01, 0.05])) for _ in range(nq)]
+    for q in queued:
+        if streams[q]["headers"][0][1] == "POST":
+            m = mk(q)
+            streams[q]["chunks"] = [[f"<{m}.q0>", r.choice([0, 40, 200])]]
+            streams[q]["headers"].append(["content-length", str(len(body_of(streams[q]["chunks"])))])
+    late = [add("GET", None, r.choice([0, 0.01, 0.05])) for _ in range(nlate)]
+
+    def frames_of(i):
+        s = streams[i]
+        if not s["chunks"]:
+            return [{"s": i, "t": "H", "end": True}]
+        return [{"s": i, "t": "H"}, {"s": i, "t": "D", "i": 0, "end": True}]
+    steps = [{"frames": [f for h in holders for f in frames_of(h)], "cuts": [], "gaps": [], "pause": 0}]
+    steps.append({"frames": [f for q in queued for f in frames_of(q)], "cuts": [], "gaps": [], "pause": r.choice([0.05, 0.1, 0.3])})
+    n_reset = r.choice([1, limit, limit])
+    resets = holders[:] if n_reset >= limit else [r.choice(holders)]
+    steps.append({"frames": [{"s": h, "t": "R", "code": 8} for h in resets], "cuts": [], "gaps": [],
+                  "pause": r.choice([0.2, 0.5, 1.0])})
+    if late:
+        steps.append({"frames": [f for c in late for f in frames_of(c)], "cuts": [], "gaps": [],
+                      "pause": r.choice([0.0, 0.01, 0.1, 0.5])})
+    client = {"settings": {"iws": None}, "ack_mode": "now", "ack_every": 0.05, "streams": streams, "steps": steps,
+              "finish": {"timeout": 50.0, "close": r.choice(["goaway", "fin"])}}
+    origin = {"kind": "h2", "responses": responses, "connect_delay": 0.0, "settings": {"mcs": limit, "iws": None},
+              "settings_delay": 0, "ack_mode": "now", "ack_every": 0.05, "mcs_changes": []}
+    policy = []
+    if r.random() < 0.3:
+        policy.append({"hook": "request", "s": r.choice(queued), "latency": r.choice([0.001, 0.02])})
+    return {"family": f"h2-h2-{mode}-quiet-reset", "mode": mode, "eager": r.random() < 0.4,
+            "options": {"connection_strategy": r.choice(["lazy", "eager"])}, "client": client, "origin": origin,
+            "policy": policy, "settle": 8.0}
+
+
 def generate(rng, tier):
     r = rng.at("c05")
+    if r.random() < 0.10:
+        return gen_quiet_reset(r)
     okind = _wchoice(r, [("h2", 75), ("h1", 25)])
     mode = r.choice(["regular", "regular", "reverse"])
     n = r.choice([2, 2, 3, 3, 4, 5, 6, 8, 10, 12]) if okind == "h2" else r.choice([2, 2, 3, 4, 5, 6])
@@ -250,6 +319,28 @@ def generate(rng, tier):
                                 "last": r.choice(["seen", "zero"]), "code": r.choice([0, 0, 2]), "close_after": r.choice([0.0, 0.3])}
         elif f < 0.14:
             origin["tcp_close"] = {"after": r.randrange(1, n + 1), "delay": r.choice([0, 0.01, 0.2]), "rst": r.random() < 0.4}
+    # flow-control policy "windows are opened by SETTINGS_INITIAL_WINDOW_SIZE, not by stream WINDOW_UPDATEs" (RFC 9113 6.9.2):
+    # a tiny initial window, connection-level credit only, and later a SETTINGS frame (in a segment of its own) that raises
+    # the initial window beyond every body
+    if r.random() < 0.14:
+        side = r.choice(["origin", "client", "both"]) if okind == "h2" else "client"
+        if side in ("origin", "both"):
+            origin["settings"]["iws"] = r.choice([0, 10, 1000])
+            origin["ack_mode"] = "conn"
+            ch = []
+            d = r.choice([0.05, 0.5, 2.0])
+            if r.random() < 0.3:
+                ch.append({"after": 1, "delay": d, "iws": r.choice([100, 1000, 5000])})
+                d += r.choice([0.2, 1.0])
+            ch.append({"after": 1, "delay": d, "iws": BIG_WINDOW})
+            origin["iws_changes"] = ch
+        if side in ("client", "both"):
+            client["settings"]["iws"] = r.choice([0, 10, 1000])
+            client["ack_mode"] = "conn"
+            if r.random() < 0.3:
+                steps.append({"frames": [{"t": "S", "iws": r.choice([100, 1000, 5000])}], "cuts": [], "gaps": [],
+                              "pause": r.choice([0.2, 1.0])})
+            steps.append({"frames": [{"t": "S", "iws": BIG_WINDOW}], "cuts": [], "gaps": [], "pause": r.choice([0.3, 1.0, 2.5])})
     policy = []
     for _ in range(r.choice([0, 0, 1, 2, 4])):
         k = r.randrange(n)
@@ -375,10 +466,14 @@ def run(sc, keep_log=False):
         pstreams[s["k"]] = {"headers": s["headers"], "chunks": [chunk_bytes(c).decode("latin-1") for c in s["chunks"]],
                             "trailers": s["trailers"]}
     for st in cspec["steps"]:
-        st["frames"] = [f for f in st.get("frames", []) if f.get("t") == "P" or (
+        st["frames"] = [f for f in st.get("frames", []) if f.get("t") == "P" or (f.get("t") == "S" and "iws" in f) or (
             f.get("s") in by_k and (f["t"] != "D" or 0 <= f.get("i", -1) < len(by_k[f["s"]]["chunks"]))
             and (f["t"] != "T" or by_k[f["s"]]["trailers"]))]
     cspec["streams"] = pstreams
+    if cspec.get("ack_mode") == "conn" and not any(
+            f.get("t") == "S" and f.get("iws", 0) >= BIG_WINDOW for st in cspec["steps"] for f in st.get("frames", [])):
+        # liveness of the peer itself (also after shrinking), see the origin side
+        cspec["steps"].append({"frames": [{"t": "S", "iws": BIG_WINDOW}], "cuts": [], "gaps": [], "pause": 1.0})
     ospec = sc["origin"]
     okind = ospec.get("kind", "h2")
 
@@ -473,6 +568,13 @@ def run(sc, keep_log=False):
                         spec["mcs_changes"] = copy.deepcopy(ospec.get("mcs_changes", []))
                         spec["goaway"] = copy.deepcopy(ospec.get("goaway"))
                         spec["tcp_close"] = copy.deepcopy(ospec.get("tcp_close"))
+                    # (every upstream connection follows the same window policy)
+                    spec["iws_changes"] = copy.deepcopy(ospec.get("iws_changes", []))
+                    if spec["ack_mode"] == "conn" and not any(
+                            c_.get("after") == 1 and c_.get("iws", 0) >= BIG_WINDOW for c_ in spec["iws_changes"]):
+                        # liveness of the peer itself (also after shrinking): a peer that never sends stream WINDOW_UPDATEs
+                        # must open its windows through SETTINGS at some point
+                        spec["iws_changes"].append({"after": 1, "delay": 1.0, "iws": BIG_WINDOW})
                     tls = T.TlsStream(conn, T.origin_context(["h2", "http/1.1"]), server_side=True)
                     o = HP.H2Origin(w, tls, spec, h2_marker_of, name=f"origin{ordinal}")
                 else:
@@ -621,7 +723,12 @@ def oracle(sc, obs):
             add("upstream_protocol_error", {"exc": exc},
                 f"the h2 origin peer (connection {o.ordinal}) refused what mitmproxy sent: {o.proto_error}")
         if getattr(o, "handshake_error", None):
-            add("upstream_tls_failed", {"err": str(o.handshake_error)[:40]}, f"upstream TLS handshake failed: {o.handshake_error}")
+            if "eof during handshake" in str(o.handshake_error):
+                # mitmproxy gave the connection up while it was still being set up (e.g. the client cancelled the only
+                # request that wanted it): nothing wrong with that
+                P_("upstream_handshake_abandoned")
+            else:
+                add("upstream_tls_failed", {"err": str(o.handshake_error)[:40]}, f"upstream TLS handshake failed: {o.handshake_error}")
 
     # ---- flows: only their own marker ----------------------------------------------------------------------
     final = {}
@@ -781,14 +888,29 @@ def oracle(sc, obs):
                 streamed = any(p["hook"] == "requestheaders" and p.get("stream") and p["s"] == k for p in pol)
                 lat = max([p.get("latency", 0) for p in pol if p["hook"] == "request" and p["s"] == k] or [0])
                 pending = streamed and lat > 0
+                client_sending = False
                 if streamed and okind == "h1" and not pending and k in up:
-                    # same race without a hook: the origin answered (and closed) before the CLIENT had finished the
+                    # the same race without a hook: the origin answered (and closed) before the CLIENT had finished the
                     # streamed request, so the request is still open at mitmproxy when the answer and the close arrive
                     rt = next((e[0] for e in up[k][0][0].log if len(e) > 2 and e[2] == "reply"), None)
                     if rt is not None and sent.get("t_end") is not None and rt <= sent["t_end"]:
-                        pending = True
+                        client_sending = True
+                if client_sending:
+                    # By design (pinned by test_request_streaming[early close-*]): when an HTTP/1 server answers early and
+                    # closes while the client is still uploading, mitmproxy relays the answer and then gives up the client
+                    # side - for an HTTP/2 client that is a RST_STREAM after the answer.  What the statement asks for is
+                    # that what reaches the stream before that reset is this stream's answer (the reset may cut the body
+                    # short when the client's own flow-control window has not let all of it through yet).
+                    st_ = dict(ob["resp_headers"] or []).get(b":status")
+                    exp_x_ = sorted([(b"x-mark", mk(k).encode()), (f"x-r-{mk(k)}".encode(), b"1")])
+                    if (ob["resp_headers"] is None and not ob["data"]) or (
+                            st_ == str(rsp.get("status", 200)).encode() and _xfields(ob["resp_headers"]) == exp_x_ and
+                            body_of(rsp.get("chunks", [])).startswith(bytes(ob["data"]))):
+                        P_("early_answer_relayed_then_reset")
+                        continue
                 add("client_response_wrong", {"what": "reset_instead_of_response", "origin": okind,
-                                              "streamed_request_hook_pending_at_answer": bool(pending and okind == "h1")},
+                                              "streamed_request_hook_pending_at_answer": bool(pending and okind == "h1"),
+                                              "client_still_uploading_at_answer": bool(client_sending)},
                     f"stream {k}: the origin answered normally but the client stream was reset (code {ob['reset']})")
                 continue
             exp_status = str(rsp.get("status", 200)).encode()
@@ -874,8 +996,21 @@ def oracle(sc, obs):
         if pairs:
             P_("fifo_pairs_checked", pairs)
         if seq_up != cand:
-            add("queue_order", {"n_waiting": min(len(cand), 4)},
+            add("queue_order", {"n_waiting": min(len(cand), 4), "overtaken_by": "waiting_stream"},
                 f"streams that waited for upstream capacity became ready in order {cand} but were opened upstream in order {seq_up}")
+        else:
+            # a waiting stream must also not be overtaken by a request that arrived AFTER it (and never had to wait
+            # because the slot the waiting stream was entitled to was still free when it came)
+            live = [k for k in ready_order if k in up_order and (cl.sent.get(k) or {}).get("reset") is None]
+            for b in cand:
+                later = [c for c in live[live.index(b) + 1:] if c not in waited_k and up_order.index(c) < up_order.index(b)]
+                if later:
+                    P_("late_arrival_pairs_checked", 0)
+                    add("queue_order", {"n_waiting": min(len(cand), 4), "overtaken_by": "later_arrival"},
+                        f"stream {b} was waiting for upstream capacity (ready order {live}) but stream(s) {later}, which "
+                        f"arrived after it, were opened upstream before it (upstream order {up_order})")
+                    break
+            P_("late_arrival_pairs_checked", sum(1 for b in cand for c in live[live.index(b) + 1:] if c not in waited_k))
 
     # ---- probes ---------------------------------------------------------------------------------------------------
     ff = w.net.faults_fired
@@ -897,6 +1032,16 @@ def oracle(sc, obs):
             P_("req_window_blocked")
         if sc["origin"].get("settings_delay"):
             P_("late_settings")
+        if ff.get("origin_iws_change"):
+            P_("origin_window_opened_by_settings")
+            oi0 = (sc["origin"].get("settings") or {}).get("iws")
+            if sc["origin"].get("ack_mode") == "conn" and oi0 is not None and \
+                    any(len(body_of(s["chunks"])) > oi0 for s in streams.values()):
+                P_("request_body_stalled_until_settings")
+        if "quiet-reset" in sc.get("family", ""):
+            P_("quiet_reset_runs")
+            if ff.get("client_rst_stream") and any(cl.idx_of.get(sid) is not None for sid in obs.waited):
+                P_("slot_freed_by_client_reset_while_queued")
         n_empty = sum(getattr(o_, "empty_data_frames", 0) for o_ in obs.origins) + cl.empty_data_frames
         if n_empty:
             # spurious zero-length DATA frames (legal, ignored by the peers): BufferedH2Connection.send_data on a negative window
@@ -906,6 +1051,11 @@ def oracle(sc, obs):
     ci = (sc["client"].get("settings") or {}).get("iws")
     if ci is not None and any(len(body_of(r_.get("chunks", []))) > ci for r_ in responses.values()):
         P_("resp_window_blocked")
+    if ff.get("client_iws_change"):
+        P_("client_window_opened_by_settings")
+        if sc["client"].get("ack_mode") == "conn" and ci is not None and \
+                any(len(body_of(r_.get("chunks", []))) > ci for r_ in responses.values()):
+            P_("response_body_stalled_until_settings")
     for t, name, k, fid, snap in obs.hooks:
         if name == "request" and snap.get("req_stream"):
             P_("streamed_request")
